@@ -70,16 +70,23 @@ def py_derive(ref, alts):
     return cols, alleles, rows
 
 
-def gen_record(r, boundary):
+def gen_record(r, boundary, big=False):
+    """(REF, ALTs, kind); `big`: 300 columns, >= 130 SNV columns and >= 130 ALTs (more haplotypes / columns than an int8 holds)"""
     n = r.choice([1, 2, 3, 5, 8, 12, 20, 40]) if not boundary else r.choice([1, 1, 2, 3])
     alpha = ALPHA if r.random() < 0.85 else r.choice(["ACGTN", "ACGTacgt"])
+    if big:
+        n = 300
     ref = "".join(r.choice(alpha) for _ in range(n))
     n_alts = r.choice([0, 1, 1, 2, 3, 4, 6]) if not boundary else r.choice([0, 0, 1, 2])
     n_cols = min(n, r.choice([0, 1, 2, 2, 3, 5]))
+    if big:
+        n_alts, n_cols = r.randint(130, 140), r.randint(130, 160)
+    elif len(alpha) >= 5 and r.random() < 0.5:
+        n_alts = r.choice([4, 6, 8])      # enough ALTs for a column to show 5 different symbols
     cols = sorted(r.sample(range(n), n_cols))
     options = {}
     for j in cols:
-        k = r.choice([2, 2, 3, 4])
+        k = r.choice([2, 2, 3, 4]) if len(alpha) < 5 else r.choice([2, 3, 4, 5, 5])
         others = [c for c in alpha if c != ref[j]]
         r.shuffle(others)
         options[j] = [ref[j]] + others[: k - 1]
@@ -93,14 +100,203 @@ def gen_record(r, boundary):
         else:
             s = list(ref)
             for j in cols:
-                s[j] = r.choice(options[j])
+                if not big or r.random() < 0.3:
+                    s[j] = r.choice(options[j])
+            if len(alpha) >= 5 and cols:          # the first column cycles through all of its symbols (5 with ACGTN)
+                s[cols[0]] = options[cols[0]][(len(alts) + 1) % len(options[cols[0]])]
             alts.append("".join(s))
     kind = "equal-length"
+    if big:
+        return ref, alts, "big"
     if alts and r.random() < 0.08:
         i = r.randrange(len(alts))
         alts[i] = alts[i] + r.choice(alpha) if r.random() < 0.5 or len(alts[i]) == 1 else alts[i][:-1]
         kind = "unequal-length"
     return ref, alts, kind
+
+
+MCMC = ["--mcmc-steps", "120", "--mcmc-burn", "40"]
+_OPS = {">=": lambda v, x: v >= x, ">": lambda v, x: v > x, "<": lambda v, x: v < x, "<=": lambda v, x: v <= x}
+
+
+def info_floats(rec, key):
+    """INFO field of a parsed record as a list of floats (None for '.'), or None when the field is absent / '.'"""
+    v = rec["INFO"].get(key)
+    if v is None or v is True or v == ".":
+        return None
+    return [None if x == "." else float(x) for x in v.split(",")]
+
+
+def expected_alts(arec, flt):
+    """ALT alleles of an assemble record that pass `--filter-input-haplotypes AFP<op><x>` (REF is never removed); None when
+    the documented behaviour is not determined (no AFP values)."""
+    if flt is None:
+        return list(arec["ALT"])
+    op, x = flt
+    afp = info_floats(arec, "AFP")
+    if afp is None:
+        return list(arec["ALT"])          # nothing to filter on: apply_allele_filter keeps every allele
+    if len(afp) != 1 + len(arec["ALT"]) or any(v is None for v in afp):
+        return None
+    return [alt for alt, v in zip(arec["ALT"], afp[1:]) if _OPS[op](v, float(x))]
+
+
+def snvpos_of(rec):
+    v = rec["INFO"].get("SNVPOS", ".")
+    return [] if v in (".", True) else [int(x) for x in v.split(",")]
+
+
+def check_called(chk, prog, tag, arecs, out2, code, err, key0, flt, reqs=None, expect=None):
+    """records of call / call-exact (`out2`) against the assemble records they were computed from"""
+    from . import synth as S
+
+    sig = f"C12/pipeline/{prog}"
+    if code != 0:
+        chk.violation(f"mchap {prog} aborted on assemble output", {**key0, "program": prog, "options": tag, "error": err[:600],
+                                                                   "assemble": [x["line"][:300] for x in arecs[:8]]},
+                      f"{sig}-abort")
+        return
+    _, crecs = S.parse_vcf_text(out2)
+    if len(crecs) != len(arecs):
+        chk.violation(f"mchap {prog} emitted {len(crecs)} records for {len(arecs)} assemble records",
+                      {**key0, "program": prog, "options": tag, "assemble": [(x["CHROM"], x["POS"], x["FILTER"]) for x in arecs],
+                       "out": [(x["CHROM"], x["POS"], x["FILTER"]) for x in crecs]}, f"{sig}-record-count")
+        return
+    for a, c in zip(arecs, crecs):
+        key = {**key0, "program": prog, "options": tag, "CHROM": a["CHROM"], "POS": a["POS"], "ID": a["ID"]}
+        chk.case({"seed": C.seed(), **key, "REF": a["REF"], "ALT": a["ALT"]}, len(a["ALT"]) >= 1)
+        want_alt = expected_alts(a, flt)
+        if flt is not None and want_alt is not None and len(want_alt) < len(a["ALT"]):
+            chk.count(f"{prog}:record-with-filtered-ALT")
+        same = all(a[k] == c[k] for k in ("CHROM", "POS", "REF")) and (want_alt is None or c["ALT"] == want_alt)
+        if not same:
+            chk.violation(f"{prog} changed CHROM/POS/REF/ALT of an assemble record" +
+                          (" (ALT is not the list of input haplotypes passing the filter)" if flt else ""),
+                          {**key, "assemble": [a["REF"], a["ALT"], a["INFO"].get("AFP")], "expected_ALT": want_alt,
+                           "out": [c["CHROM"], c["POS"], c["REF"], c["ALT"]]}, f"{sig}-columns")
+        filt = set(c["FILTER"].split(";"))
+        invalid = bool(filt & {"NOA", "AF0"})
+        for f_ in ("NOA", "AF0"):
+            if f_ in filt:
+                chk.count(f"{prog}:{f_}")
+        if invalid:
+            chk.count(f"{prog}:NOA/AF0")
+        for name, smp in zip(c["sample_names"], c["samples"]):
+            gt = smp.get("GT", "")
+            alleles = gt.replace("|", "/").split("/")
+            if "." in alleles and not invalid:
+                chk.violation(f"{prog} emitted an incomplete genotype without NOA/AF0",
+                              {**key, "sample": name, "GT": gt, "FILTER": c["FILTER"], "assemble_line": a["line"][:400]},
+                              f"{sig}-incomplete-gt")
+            for x in alleles:
+                if x != "." and not (x.isdigit() and int(x) <= len(c["ALT"])):
+                    chk.violation(f"{prog} emitted an allele number outside REF/ALT", {**key, "sample": name, "GT": gt},
+                                  f"{sig}-allele-range")
+        # recovered SNV positions = polymorphic subset of assemble's SNVPOS
+        sa, sc = snvpos_of(a), snvpos_of(c)
+        poly = [j + 1 for j in range(len(c["REF"])) if any(len(s_) == len(c["REF"]) and s_[j] != c["REF"][j] for s_ in c["ALT"])]
+        if sc != poly or not set(sc) <= set(sa):
+            chk.violation(f"{prog}: recovered SNV positions are not the polymorphic subset of assemble's SNVPOS",
+                          {**key, "assemble_SNVPOS": sa, "out_SNVPOS": sc, "polymorphic": poly},
+                          f"{sig}-snvpos")
+        if reqs is not None and flt is None:
+            reqs.append(f"loci.derive {a['REF']} {tok_list(a['ALT'])}")
+            expect.append((key, sc, a))
+
+
+def pipeline_dataset(chk, r, S, work, d, reqs, expect):
+    """one synthetic data set: assemble (BED targets: two contigs, duplicated / overlapping windows; one --region run),
+    its output through call and call-exact (plain, --prior-frequencies AFP, --filter-input-haplotypes AFP<op><x>)"""
+    dsdir = os.path.join(work, f"ds{d}")
+    hard = d % 2 == 1     # shallow data + a strict reporting threshold: REFMASKED / ALT-less / NOA records
+    lonely = d % 4 == 1   # a single sample: its read-less locus ("nodepth") cannot reach threshold 1.0 -> NOA record
+    ds = S.make_dataset(r, dsdir, n_samples=1 if lonely else 3, n_loci=r.choice([4, 5]),
+                        ploidies=r.choice([(2, 4), (2,), (4, 2, 2)]), max_snvs=4, features={"nodepth"},
+                        depth=(1, 3) if hard else (4, 14), n_contigs=r.choice([1, 2]), contig_len=r.choice([600, 400]))
+    chk.count(f"pipeline:contigs={len(ds.contigs)}")
+    extra = ["--haplotype-posterior-threshold", "1.0" if lonely else r.choice(["1.0", "1.0", "0.95"])] if hard else []
+    key0 = {"dataset": d}
+    # ---- targets: the data set's windows plus (every other data set) a duplicated and an overlapping window
+    targets = [(l.contig, l.start, l.stop, l.name) for l in ds.loci]
+    if d % 2 == 0:
+        l = r.choice(ds.loci)
+        targets.append((l.contig, l.start, l.stop, l.name + "dup"))
+        l2 = r.choice(ds.loci)
+        s2 = l2.start + r.randint(1, max(1, (l2.stop - l2.start) // 2))
+        e2 = min(len(ds.contigs[l2.contig]), l2.stop + r.randint(0, 8))
+        targets.append((l2.contig, s2, e2, l2.name + "ovl"))
+        order = {c: i for i, c in enumerate(ds.contigs)}
+        targets.sort(key=lambda t: (order[t[0]], t[1]))
+        chk.count("pipeline:targets=duplicated+overlapping")
+    else:
+        chk.count("pipeline:targets=plain")
+    bed = S.write_text(os.path.join(dsdir, "targets2.bed"), "".join(f"{c}\t{s_}\t{e}\t{n}\n" for c, s_, e, n in targets))
+    argv = ds.assemble_argv(*MCMC, *extra, "--report", "AFP")
+    argv[argv.index("--targets") + 1] = bed
+    out, code, err = S.run_program(argv)
+    chk.count("pipeline:assemble-runs")
+    if code != 0:
+        chk.violation("mchap assemble aborted on a synthetic data set", {**key0, "error": err[:500]},
+                      "C12/pipeline/assemble-abort")
+        return
+    _, arecs = S.parse_vcf_text(out)
+    agz = S.bgzip_tabix_vcf(S.write_text(os.path.join(dsdir, "assemble.vcf"), out))
+    got = [(a["CHROM"], a["POS"], a["ID"], a["REF"]) for a in arecs]
+    want = [(c, s_ + 1, n, ds.contigs[c][s_:e]) for c, s_, e, n in targets]
+    if got != want:
+        chk.violation("assemble did not print one record per target with POS = start + 1 and REF = the reference sequence of the window",
+                      {**key0, "got": got, "expected": want}, "C12/pipeline/assemble-records")
+        return
+    for a in arecs:
+        chk.count("assemble:records")
+        if not a["ALT"]:
+            chk.count("assemble:no-ALT")
+        if a["INFO"].get("REFMASKED") is True:
+            chk.count("assemble:REFMASKED")
+        if a["INFO"].get("SNVPOS", ".") == ".":
+            chk.count("assemble:SNV-less")
+        if "NOA" in a["FILTER"]:
+            chk.count("assemble:NOA")
+    runs = [("call", None, None), ("call-exact", None, None)]
+    flt = (r.choice([">=", ">=", ">", "<", "<="]), r.choice(["0.0505", "0.1005", "0.2505", "0.5005", "0.9005"]))
+    mode = ["prior", "prior+filter", "filter", "prior+filter"][d % 4]
+    runs.append((r.choice(["call", "call-exact", "call-exact"]), mode, flt if "filter" in mode else None))
+    for prog, mode, f_ in runs:
+        opts = []
+        if mode and "prior" in mode:
+            opts += ["--prior-frequencies", "AFP"]
+        if f_:
+            opts += ["--filter-input-haplotypes", f"AFP{f_[0]}{f_[1]}"]
+        out2, code, err = S.run_program(ds.call_argv(prog, agz, *(MCMC if prog == "call" else []), *opts))
+        chk.count(f"pipeline:{prog}-runs")
+        chk.count(f"pipeline:options={mode or 'plain'}" + (f"({f_[0]})" if f_ else ""))
+        check_called(chk, prog, " ".join(opts), arecs, out2, code, err, key0, f_, reqs if prog == "call" else None, expect)
+    # ---- the same data through `assemble --region` (one window), then call-exact
+    c, s_, e, n = r.choice(targets)
+    argv = ds.assemble_argv(*MCMC, *extra, "--report", "AFP")
+    i = argv.index("--targets")
+    del argv[i:i + 2]
+    with_id = r.random() < 0.5
+    argv += ["--region", f"{c}:{s_}-{e}"] + (["--region-id", "REGION1"] if with_id else [])
+    out, code, err = S.run_program(argv)
+    chk.count("pipeline:assemble-region-runs" + ("(--region-id)" if with_id else ""))
+    if code != 0:
+        chk.violation("mchap assemble --region aborted on a synthetic data set", {**key0, "region": [c, s_, e], "error": err[:500]},
+                      "C12/pipeline/assemble-region-abort")
+        return
+    _, rrecs = S.parse_vcf_text(out)
+    ok = len(rrecs) == 1 and rrecs[0]["CHROM"] == c and \
+        rrecs[0]["REF"] == ds.contigs[c][rrecs[0]["POS"] - 1:rrecs[0]["POS"] - 1 + len(rrecs[0]["REF"])] and len(rrecs[0]["REF"]) == e - s_
+    if not ok:
+        chk.violation("assemble --region did not print exactly one record whose REF is the reference sequence at its POS",
+                      {**key0, "region": [c, s_, e], "records": [(x["CHROM"], x["POS"], x["REF"]) for x in rrecs]},
+                      "C12/pipeline/assemble-region-record")
+        return
+    rgz = S.bgzip_tabix_vcf(S.write_text(os.path.join(dsdir, "region.vcf"), out))
+    out2, code, err = S.run_program(ds.call_argv("call-exact", rgz))
+    chk.count("pipeline:call-exact-runs")
+    check_called(chk, "call-exact", "(assemble --region output)", rrecs, out2, code, err, {**key0, "region": [c, s_, e]}, None)
+    shutil.rmtree(dsdir, ignore_errors=True)
 
 
 def run(tier, replay=None):
@@ -124,22 +320,32 @@ def run(tier, replay=None):
     try:
         # ------------------------------------------------------------------ record level
         gen = [gen_record(r, r.random() < 0.12) for _ in range(n_rec)]
+        gen += [gen_record(r, False, big=True) for _ in range({"warm": 1, "quick": 3, "thorough": 12}[tier])]
+        # INFO/SNVPOS as assemble would print it: a superset of the polymorphic columns ('.' when empty)
+        snvpos = []
+        for ref, alts, kind in gen:
+            poly = [j for j in range(len(ref)) if any(len(s_) == len(ref) and s_[j] != ref[j] for s_ in alts)]
+            extra = r.sample(range(len(ref)), min(len(ref), r.choice([0, 0, 1, 2, 5])))
+            snvpos.append(sorted(set(poly) | set(extra)) if kind != "unequal-length" else [])
         total = sum(len(g[0]) + 10 for g in gen) + 100
         lines = ["##fileformat=VCFv4.3", f"##contig=<ID=chr1,length={total}>",
+                 '##INFO=<ID=SNVPOS,Number=.,Type=Integer,Description="Relative (1-based) positions of SNVs within haplotypes">',
                  "#CHROM\tPOS\tID\tREF\tALT\tQUAL\tFILTER\tINFO"]
         pos = 5
-        for ref, alts, _ in gen:
-            lines.append(f"chr1\t{pos}\t.\t{ref}\t{','.join(alts) if alts else '.'}\t.\tPASS\t.")
+        for (ref, alts, _), sp in zip(gen, snvpos):
+            info = "SNVPOS=" + (",".join(str(j + 1) for j in sp) if sp else ".")
+            lines.append(f"chr1\t{pos}\t.\t{ref}\t{','.join(alts) if alts else '.'}\t.\tPASS\t{info}")
             pos += len(ref) + 10
         gz = S.bgzip_tabix_vcf(S.write_text(os.path.join(work, "records.vcf"), "\n".join(lines) + "\n"))
         records = []
+        reqs2, impl2, meta2 = [], [], []
         with pysam.VariantFile(gz) as f:
             for rec in f.fetch():
                 records.append(rec)
             if len(records) != len(gen):
                 raise C.Infra(f"pysam returned {len(records)} records for {len(gen)} written")
             reqs, impl = [], []
-            for rec, (_, _, kind) in zip(records, gen):
+            for rec, (_, _, kind), sp in zip(records, gen, snvpos):
                 ref = rec.ref
                 alts = list(rec.alts) if rec.alts else []
                 reqs.append(f"loci.derive {ref} {tok_list(alts)}")
@@ -158,13 +364,62 @@ def run(tier, replay=None):
                                  "start": rec.start, "stop": rec.stop, "seq": lp.sequence, "alts": list(lp.alts)})
                 except AssertionError:
                     impl.append("err:assertion")
+                # ---- the same record with the SNV columns taken from INFO/SNVPOS (what assemble printed)
+                if kind == "unequal-length":
+                    continue
+                case = {"ref": ref[:400], "alts": [x[:400] for x in alts[:8]], "n_alts": len(alts), "SNVPOS": [j + 1 for j in sp]}
+                chk.count("snvpos:records")
+                chk.count("snvpos:empty('.')" if not sp else ("snvpos:with-monomorphic-column" if len(sp) > len(
+                    [j for j in sp if any(x[j] != ref[j] for x in alts)]) else "snvpos:all-polymorphic"))
+                try:
+                    lp2 = LocusPrior.from_variant_record(rec, use_snvpos=True)
+                    offs2 = [int(p - rec.start) for p in lp2.positions]
+                    als2 = ["".join(a) for a in lp2.alleles]
+                    enc2 = lp2.encode_haplotypes()
+                    rows2 = [[int(x) for x in row] for row in enc2]
+                    fmt2 = [str(x) for x in lp2.format_haplotypes(enc2)]
+                except Exception as e:  # noqa: BLE001
+                    chk.violation("from_variant_record(use_snvpos=True) / encode / format raised on a consistent record",
+                                  {**case, "error": f"{type(e).__name__}: {e}"[:300]}, "C12/from_variant_record/snvpos-exception")
+                    continue
+                seqs = [ref] + alts
+                want_als = ["".join(py_first_appearance([x[j] for x in seqs])) for j in sp]
+                want_rows = [[al.index(x[j]) for j, al in zip(sp, want_als)] for x in seqs]
+                if offs2 != list(sp):
+                    chk.violation("use_snvpos: SNV columns are not the SNVPOS of the record", {**case, "got": offs2},
+                                  "C12/from_variant_record/snvpos-columns")
+                elif als2 != want_als:
+                    chk.violation("use_snvpos: SNV alleles are not REF first then ALT bases by first appearance",
+                                  {**case, "got": als2[:20], "expected": want_als[:20]}, "C12/from_variant_record/snvpos-first-appearance")
+                elif rows2 != want_rows or enc2.shape != (len(seqs), len(sp)):
+                    chk.violation("use_snvpos: encoded alleles are not the first-appearance indices",
+                                  {**case, "shape": list(enc2.shape)}, "C12/encode_haplotypes/snvpos-indices")
+                if fmt2 != seqs:
+                    chk.violation("use_snvpos: format_haplotypes(encode_haplotypes()) does not reproduce REF/ALT",
+                                  {**case, "got": [x[:400] for x in fmt2[:8]]}, "C12/roundtrip/format-encode-snvpos")
+                if [o for o, al in zip(offs2, als2) if len(al) > 1] != (impl[-1]["offs"] if isinstance(impl[-1], dict) else None):
+                    chk.violation("SNV positions recovered from the sequences are not the polymorphic subset of SNVPOS",
+                                  {**case, "from_sequences": impl[-1]["offs"] if isinstance(impl[-1], dict) else impl[-1],
+                                   "polymorphic_of_SNVPOS": [o for o, al in zip(offs2, als2) if len(al) > 1]},
+                                  "C12/from_variant_record/snvpos-polymorphic-subset")
+                reqs2.append(f"loci.encode {tok_list(offs2)} {tok_list(als2)} {tok_list(seqs)}")
+                impl2.append(tok_rows(rows2))
+                meta2.append(case)
+                reqs2.append(f"loci.format {ref} {tok_list(offs2)} {tok_list(als2)} - {tok_rows(rows2)}")
+                impl2.append(tok_list(fmt2))
+                meta2.append(case)
+        for req, a, im, case in zip(reqs2, drv.ask(reqs2), impl2, meta2):
+            chk.case(req, len(case["SNVPOS"]) >= 2 and case["n_alts"] >= 2)
+            if a != im:
+                chk.disagreement("use_snvpos: encode_haplotypes / format_haplotypes != model on the SNVPOS columns",
+                                 {**case, "request": req[:300], "impl": im[:300], "model": a[:300]})
         ans = drv.ask(reqs)
         for req, a, im, rec, (_, _, kind) in zip(reqs, ans, impl, records, gen):
             ref = rec.ref
             alts = list(rec.alts) if rec.alts else []
             chk.count(f"record:{kind}")
             chk.count(f"record:n_alts={min(len(alts), 4)}{'+' if len(alts) >= 4 else ''}")
-            case = {"ref": ref, "alts": alts}
+            case = {"ref": ref, "alts": alts} if len(ref) <= 60 else {"ref": ref, "alts": alts[:6], "n_alts": len(alts)}
             if im == "err:assertion" or a == "err:assertion":
                 chk.case(req, False)
                 chk.count("record:assertion-error")
@@ -190,6 +445,10 @@ def run(tier, replay=None):
                                  {**case, "impl": list(i_str), "model": a})
             # ---- oracles on the implementation
             cols, alleles, rows = py_derive(ref, alts)
+            if kind == "big":
+                chk.count(f"record:big(n_snv>={10 * (n_snv // 10)},n_alts>={10 * (len(alts) // 10)})")
+            if any(len(x) >= 5 for x in im["alleles"]):
+                chk.count("record:column-with->=5-symbols")
             if im["fmt"] != [ref] + alts:
                 chk.violation("format_haplotypes(encode_haplotypes()) does not reproduce REF/ALT", {**case, "got": im["fmt"]},
                               "C12/roundtrip/format-encode")
@@ -286,82 +545,9 @@ def run(tier, replay=None):
                                       {"request": req, "formatted": strings, "back": back}, "C12/roundtrip/encode-format")
 
         # ------------------------------------------------------------------ pipeline: assemble -> call, call-exact
-        mcmc = ["--mcmc-steps", "120", "--mcmc-burn", "40"]
         reqs, expect = [], []
         for d in range(n_ds):
-            dsdir = os.path.join(work, f"ds{d}")
-            hard = d % 2 == 1     # shallow data + a strict reporting threshold: REFMASKED / ALT-less / NOA records
-            ds = S.make_dataset(r, dsdir, n_samples=3, n_loci=r.choice([4, 5]), ploidies=r.choice([(2, 4), (2,), (4, 2, 2)]),
-                                max_snvs=4, features={"nodepth"}, depth=(1, 3) if hard else (4, 14))
-            extra = ["--haplotype-posterior-threshold", r.choice(["1.0", "1.0", "0.95"])] if hard else []
-            out, code, err = S.run_program(ds.assemble_argv(*mcmc, *extra))
-            chk.count("pipeline:assemble-runs")
-            if code != 0:
-                chk.violation("mchap assemble aborted on a synthetic data set", {"dataset": d, "error": err[:500]},
-                              "C12/pipeline/assemble-abort")
-                continue
-            _, arecs = S.parse_vcf_text(out)
-            agz = S.bgzip_tabix_vcf(S.write_text(os.path.join(dsdir, "assemble.vcf"), out))
-            for a in arecs:
-                chk.count("assemble:records")
-                if not a["ALT"]:
-                    chk.count("assemble:no-ALT")
-                if a["INFO"].get("REFMASKED") is True:
-                    chk.count("assemble:REFMASKED")
-                if a["INFO"].get("SNVPOS", ".") == ".":
-                    chk.count("assemble:SNV-less")
-                if "NOA" in a["FILTER"]:
-                    chk.count("assemble:NOA")
-            for prog in ("call", "call-exact"):
-                argv = ds.call_argv(prog, agz, *(mcmc if prog == "call" else []))
-                out2, code, err = S.run_program(argv)
-                chk.count(f"pipeline:{prog}-runs")
-                if code != 0:
-                    chk.violation(f"mchap {prog} aborted on assemble output", {"dataset": d, "program": prog, "error": err[:600],
-                                                                               "assemble": [x["line"][:300] for x in arecs]},
-                                  f"C12/pipeline/{prog}-abort")
-                    continue
-                _, crecs = S.parse_vcf_text(out2)
-                if len(crecs) != len(arecs):
-                    chk.violation(f"mchap {prog} emitted {len(crecs)} records for {len(arecs)} assemble records",
-                                  {"dataset": d, "program": prog}, f"C12/pipeline/{prog}-record-count")
-                    continue
-                for a, c in zip(arecs, crecs):
-                    key = {"dataset": d, "program": prog, "CHROM": a["CHROM"], "POS": a["POS"]}
-                    chk.case({"seed": C.seed(), **key, "REF": a["REF"], "ALT": a["ALT"]}, len(a["ALT"]) >= 1)
-                    same = all(a[k] == c[k] for k in ("CHROM", "POS", "REF", "ALT"))
-                    if not same:
-                        chk.violation(f"{prog} changed CHROM/POS/REF/ALT of an assemble record",
-                                      {**key, "assemble": [a["REF"], a["ALT"]], "out": [c["CHROM"], c["POS"], c["REF"], c["ALT"]]},
-                                      f"C12/pipeline/{prog}-columns")
-                    filt = set(c["FILTER"].split(";"))
-                    invalid = bool(filt & {"NOA", "AF0"})
-                    if invalid:
-                        chk.count(f"{prog}:NOA/AF0")
-                    for name, smp in zip(c["sample_names"], c["samples"]):
-                        gt = smp.get("GT", "")
-                        alleles = gt.replace("|", "/").split("/")
-                        if "." in alleles and not invalid:
-                            chk.violation(f"{prog} emitted an incomplete genotype without NOA/AF0",
-                                          {**key, "sample": name, "GT": gt, "FILTER": c["FILTER"], "assemble_line": a["line"][:400]},
-                                          f"C12/pipeline/{prog}-incomplete-gt")
-                        for x in alleles:
-                            if x != "." and not (x.isdigit() and int(x) <= len(c["ALT"])):
-                                chk.violation(f"{prog} emitted an allele number outside REF/ALT", {**key, "sample": name, "GT": gt},
-                                              f"C12/pipeline/{prog}-allele-range")
-                    # recovered SNV positions = polymorphic subset of assemble's SNVPOS
-                    def snvpos(rec):
-                        v = rec["INFO"].get("SNVPOS", ".")
-                        return [] if v in (".", True) else [int(x) for x in v.split(",")]
-                    sa, sc = snvpos(a), snvpos(c)
-                    poly = [j + 1 for j in range(len(a["REF"])) if any(s[j] != a["REF"][j] for s in a["ALT"])]
-                    if sc != poly or not set(sc) <= set(sa):
-                        chk.violation(f"{prog}: recovered SNV positions are not the polymorphic subset of assemble's SNVPOS",
-                                      {**key, "assemble_SNVPOS": sa, "out_SNVPOS": sc, "polymorphic": poly},
-                                      f"C12/pipeline/{prog}-snvpos")
-                    if prog == "call":
-                        reqs.append(f"loci.derive {a['REF']} {tok_list(a['ALT'])}")
-                        expect.append((key, sc, a))
+            pipeline_dataset(chk, r, S, work, d, reqs, expect)
         ans = drv.ask(reqs)
         for req, a, (key, sc, arec) in zip(reqs, ans, expect):
             m_offs = a.split(" ")[0]
